@@ -982,3 +982,6 @@ func AbandonInconclusive(why string) {
 	fmt.Fprintln(os.Stderr, "VERIF-INCONCLUSIVE: "+why)
 	os.Exit(9)
 }
+
+// WorkDir returns (and creates) the scratch directory of a check under <root>/work.
+func WorkDir(id string) string { return workDir(id) }
